@@ -314,7 +314,7 @@ func (w *world) reopen(id string) {
 	}
 	// either the same process reopens the database (counter kept), or a new process does, whose
 	// counter is wherever the databases it opened before have left it
-	if nd.Choice("new-process", 2) == 1 {
+	if !concreteCounter && nd.Choice("new-process", 2) == 1 {
 		c := nd.U64("process-counter")
 		nd.Assume(c < 1<<62)
 		sequence.VerifSetCounter(c)
